@@ -1,4 +1,4 @@
-"""What MANIFEST.json claims.  Edit here, then run  python3 vlib/mkmanifest.py"""
+"""What MANIFEST.json claims.  Edit here, then run  /venv/bin/python vlib/mkmanifest.py"""
 HOOKS = {
     "guard": "SPARSESPACE_VERIF",
     "enable": "no hooks are compiled into /repo: contracts are sidecar files under /verif/contracts and runtime wrappers are installed inside the check process only",
@@ -7,19 +7,82 @@ HOOKS = {
     "add_only": True,
 }
 NOTES = ("Technique: contract-based deductive verification of the real code. Layer P = own AST->SMT VC generator over the real function bodies "
-         "(unbounded); layer L = lemmas (SMT induction, Lean/Mathlib); layer B = runtime contracts over a bounded universe (labelled bounded, never counted as proved). "
-         "See DESIGN.md.")
+         "re-read from /repo on every run (unbounded in the inputs; where a function is only loop-free for a fixed dimension the bound on the dimension is stated); "
+         "layer L = lemmas over the spec vocabulary (SMT induction schemas, Lean 4/Mathlib); layer B = runtime contracts on the real functions over a stated bounded "
+         "universe (labelled bounded, never counted as proved). A refuted obligation is replayed on the real code; unknown/timeout/out-of-subset is UNDECIDED and "
+         "the bounded layer decides. Genuine defects found are in known_findings.txt (fixed: / finding:). See DESIGN.md.")
+
+T_MIXED = "contract-based deductive verification (own AST->SMT VC generator on the real source, z3/cvc5, lemmas) + bounded runtime contracts as labelled stand-in"
+T_BOUNDED = "runtime contracts on the real functions over a bounded universe (labelled bounded stand-in); small proved kernels where within reach"
+TRUST = ("Trusted base: pyvc encoding of Python (ints mathematical, floats as reals A-REAL, tuples as arrays), prelude contracts of builtins/numpy, z3/cvc5/Lean kernels; "
+         "trusted (assumed) callee contracts are listed in the evidence. Bounded layer: independent oracles written in the harness, tolerances stated per clause.")
+
+
+def mixed(text, note=""):
+    return dict(level="other", text=text, note=TRUST + (" " + note if note else ""), technique=T_MIXED)
+
+
+def bounded(text, note=""):
+    return dict(level="exploration", text=text, note=TRUST + (" " + note if note else ""), technique=T_BOUNDED)
+
+
 CLAIMS = {
-    "C01": dict(
-        level="other",
-        text=("Mixed. PROVED for all inputs (unbounded dimension, arbitrary index sets): the real update_adaptive_combi / __refine_scheme / query methods, "
-              "symbolically executed from the working tree, preserve the index-set invariant (entries>=lmin, old/active disjoint, backward neighbours old "
-              "=> downward closed, no active index with a forward neighbour) for refinable and non-refinable requests; Lean/Mathlib lemma: for ANY finite index set "
-              "the stencil coefficients of the grids dominating l sum to [l in I] (inclusion-exclusion, hence sum 1). BOUNDED (not proof): initialisation, the "
-              "closed-form scheme, and the link between get_coefficients_to_index_set and the Lean coeff function are checked exhaustively on small universes."),
-        note=("Assumes the pyvc encoding of Python (ints mathematical, tuple == array in canonical form), A-ITER; z3/cvc5/Lean kernels; "
-              "initialisation (getGrids recursion) and get_coefficients_to_index_set are only covered by the bounded layer."),
-        technique="deductive verification (own AST->SMT VC generator, z3/cvc5) + Lean 4/Mathlib lemma; bounded runtime contracts as stand-in",
-    ),
+    "C01": mixed("PROVED for all inputs (unbounded dimension, arbitrary index sets): update_adaptive_combi / __refine_scheme / the query methods, symbolically executed from the "
+                 "working tree, preserve the index-set invariant (entries>=lmin, old/active disjoint, backward neighbours old => downward closed, no active index with a forward "
+                 "neighbour) for refinable and non-refinable requests; Lean/Mathlib: for ANY finite index set the stencil coefficients of the grids dominating l sum to [l in I]. "
+                 "BOUNDED: initialisation, closed-form scheme, and the link get_coefficients_to_index_set <-> Lean coeff function (exhaustive small universes).",
+                 "Initialisation (getGrids recursion) and get_coefficients_to_index_set are covered by the bounded layer only."),
+    "C02": mixed("PROVED: the real 1-D trapezoidal grid (set_current_area, level_to_num_points_1d, points/weights) returns as many points as it announces, inside the sub-box, "
+                 "boundary-off drops exactly the global boundary points (all levels, all boxes); SMT: level-nestedness; Lean: per-point coefficient sum 1 and reproduction at "
+                 "grid points for nested families over downward-closed index sets. BOUNDED: the real StandardCombi (d<=3) against nodal unit functions and hierarchical hats."),
+    "C03": mixed("PROVED: modify_according_to_levelvec (all integers): selected level stays in [lmin, l], is monotone in the component level and depends only on the own level entry "
+                 "(relational product proofs); Lean lemmas as C02. BOUNDED: the real dimension-wise strategy under an adversarial benefit oracle (d<=3, versions 2,3,6,7,8, "
+                 "rebalancing, boundary on/off): sorted nested 1-D sets, coefficient sum 1, reproduction at grid points after every refinement step."),
+    "C04": bounded("No contract within reach decides 'every function of the initial space stays exact' (needs approximation theory through numpy quadrature/interpn). "
+                   "BOUNDED (deciding): hierarchical hats of the initial space, random combinations and linear monomials carried as extra output components through adversarial "
+                   "refinement histories of all three strategies. PROVED support only: coarsening never below lmin; global trapezoidal weights (standard and modified basis) are "
+                   "the exact integrals of the basis functions."),
+    "C05": mixed("PROVED: Integration.evaluate_area moves area value, container total and combined result by the same coefficient*component-integral; process_removed_objects "
+                 "subtracts each removed area exactly once; RefinementContainer.set_value/set_evaluations keep total == sum over objects (ghost Sum + induction lemma). "
+                 "BOUNDED: at every stop of every strategy result == sum coeff*component result recomputed independently, == from-scratch evaluation, unchanged by reevaluate_at_end."),
+    "C06": mixed("PROVED: splitting an interval yields two children tiling it at an inner point with shared-point level max+1, inherited outer levels, coarsening max(c-1,0)>=0, "
+                 "receiver unchanged, never raises; the selection kernel returns the FIRST object at/after the cursor whose benefit reaches the tolerance and advances the cursor "
+                 "(any container size); benefits non-negative. BOUNDED: whole-container tiling, tree level rule incl. rebalancing, coarsening/lmax bookkeeping, exact split set per step."),
+    "C07": mixed("PROVED for d in {1,2,3} with symbolic coordinates: split_area_single_dim / split_area_arbitrary_dim children lie inside the parent, have pairwise disjoint "
+                 "interiors and volumes summing to the parent's; refine() (split-then-extend policy): extend keeps the box, coarsening max(c-1,0)>=0, scheme grows exactly when c==0; "
+                 "update keeps coarsening>=0. BOUNDED: coarsen_grid local combination validity (exhaustive d<=4), whole histories incl. automatic/single-dim policies, point assignment."),
+    "C08": mixed("PROVED (trapezoidal family, all levels/boxes/flags): announced count == returned points == weights, points inside the box, boundary-off drops exactly global "
+                 "boundary points. BOUNDED: all families (Trapezoidal, Simpson, Clenshaw-Curtis, Leja, Gauss-Legendre, Lagrange, B-spline) d<=3: counts, containment, weight sum, "
+                 "polynomial exactness to the nominal degree."),
+    "C09": mixed("PROVED for every number of points and every strictly sorted grid: GlobalTrapezoidalGrid.compute_weights returns for each point the exact integral of its "
+                 "(modified) hat function (standard; modified n=3, n=4, n>=5), non-negative in the standard case; induction lemma: sum w_i f_i == integral of the piecewise-linear "
+                 "interpolant; linear exactness; end-weight lemma for the modified basis. BOUNDED: Simpson/high-order/Lagrange/B-spline global rules on all refinement trees of depth<=4."),
+    "C10": bounded("BOUNDED (deciding): hierarchise-then-interpolate is the identity on every grid, polynomial reproduction, derivatives/integrals of basis functions, for local and "
+                   "global Lagrange/B-spline grids on refinement trees. PROVED kernel: LagrangeBasis is 1 at its own knot and 0 at the others (2..4 symbolic distinct knots)."),
+    "C11": bounded("BOUNDED (deciding, exhaustive over all dyadic trees of depth<=4, all slice groupings/versions/containers): weights sum to the interval length, linear exactness, "
+                   "degree 2m+1 on complete grids, binary-tree completion. PROVED kernel: get_romberg_coefficient equals the Richardson constant for m<=3 independent of [a,b]; "
+                   "the constants sum to 1 and cancel the error terms."),
+    "C12": mixed("PROVED: Function.__call__ single-point path returns the evaluation of the point whether cached or not, keeps the cache sound and counts each distinct point once; "
+                 "every local is defined on every path; reset/deactivate contracts. BOUNDED: all 33 function classes, operation histories (single/batch/repeat/empty/reset/"
+                 "deactivate), analytic integral vs own Gauss quadrature."),
+    "C13": mixed("PROVED for ALL sequences of (error, point count) the evaluation steps may produce: continue_adaptive_refinement stops at the FIRST evaluation meeting a stopping "
+                 "rule, never refines after it, appends exactly one history entry per evaluation recording that evaluation (ghost counters on abstract step contracts). "
+                 "BOUNDED: all strategies with reference solution: reported error == normalised deviation in the chosen norm, point count == distinct evaluations, no negative errors."),
+    "C14": bounded("BOUNDED (deciding): stop-and-continue at every interruption index, save/restore round trip (dill) vs an uninterrupted run. PROVED support: the driver loop is "
+                   "re-entrant for an arbitrary existing history (C13 contract)."),
+    "C15": mixed("PROVED for every grid size/sorted grid with the distribution abstracted by its interval moments (A-DIST): weighted trapezoidal weights are non-negative and equal "
+                 "the per-interval moment formula; lemmas: uniform => trapezoidal/(b-a); E[cf+e]=cE[f]+e, Var[cf+e]=c^2 Var[f], constant model; variance never negative (1..3 outputs). "
+                 "BOUNDED: real distributions (uniform/triangle/normal), weighted midpoint, sums to 1, the real UQ pipeline."),
+    "C16": mixed("PROVED for dim 1,2 with symbolic coordinates: calculate_R_value_analytically returns the L2 product of the two hat functions (Gram entry), 0 for non-adjacent; "
+                 "lemma: the closed forms are the integrals. BOUNDED: matrix assembly (uniform / dimension-wise), SPD, mass lumping, right-hand side on all three size paths, "
+                 "scalar vs vectorised hats, normalisation."),
+    "C17": bounded("Relational over configurations (reuse on/off, both sides of the 200-point threshold): no single-call contract expresses it; BOUNDED: both configurations run on the "
+                   "same data and refinement history, surpluses/scheme/densities equal to 1e-9."),
+    "C18": bounded("numpy/sklearn-based bookkeeping outside the verified subset; BOUNDED: random operation sequences (<=8 ops over 14 operations) on data sets incl. empty, single, ties, "
+                   "unlabelled: range ends, revert restores, multiset of (sample,label) preserved, attributes carried, refusals without modification."),
+    "C19": bounded("BOUNDED: synthetic labelled sets, standard and dimension-wise learning, sequences of __call__/test_data with data inside/partly/entirely outside: arg-max clause "
+                   "against independently evaluated per-class densities, out-of-range removal, summary consistency, history stability."),
+    "C20": bounded("BOUNDED: normal equations residual on every component grid, design matrix == basis values, C == gradient Gram matrix (own exact reference) incl. anisotropic level "
+                   "vectors, PSD, every coefficient optimisation variant sums to one; standard and dimension-wise training, d<=3."),
 }
 NOT_APPLICABLE = {}
